@@ -60,6 +60,23 @@ class Wn(NativeModel):
     def nodes(self):
         return list(self.N)
 
+    # the name lists of the model (by kind): code that consults them sees exactly the registered elements of that kind
+    @property
+    def node_name_list(self):
+        return [n for n, o in self.N]
+
+    @property
+    def link_name_list(self):
+        return [n for n, o in self.L]
+
+    @property
+    def junction_name_list(self):
+        return [n for n, o in self.N if o.cls is Junction]
+
+    @property
+    def pipe_name_list(self):
+        return [n for n, o in self.L if o.cls is Pipe]
+
     def links(self):
         return list(self.L)
 
@@ -126,7 +143,8 @@ def _case(flag, at_end, skind, ekind, cv, return_copy):
             a, b = node(skind, "A", es, (xs, ys)), node(ekind, "B", ee, (xe, ye))
             pipe = SymObj(Pipe, dict(_link_name="P", _start_node=a, _end_node=b, _length=L, _diameter=D, _roughness=C, _minor_loss=K,
                                      _user_status=LinkStatus.Open, _internal_status=LinkStatus.Active, _check_valve=cv, _vertices=[], _node_reg=wn.reg))
-            other = SymObj(Pipe, dict(_link_name="Q", _start_node=a, _end_node=b, _length=cx.real("other_length") if label == "original" else None, _vertices=[]))
+            # the other link between the two nodes is a pump in the check-valve cases (a new name may clash with ANY existing element)
+            other = SymObj(HeadPump if cv else Pipe, dict(_link_name="Q", _start_node=a, _end_node=b, _length=cx.real("other_length") if label == "original" else None, _vertices=[]))
             wn.N += [("A", a), ("B", b)]
             wn.L += [("P", pipe), ("Q", other)]
             wn.pipe, wn.a, wn.b, wn.other = pipe, a, b, other
@@ -138,7 +156,9 @@ def _case(flag, at_end, skind, ekind, cv, return_copy):
         names = [j0, j1] if flag == "BREAK" else [j0]
         cx.allow_raise(ValueError, z3.Or(cx.t(f) < 0, cx.t(f) > 1))
         clash = z3.Or(*[z3.Or(cx.t(n) == wntr_name(x) for x in ("A", "B")) for n in names])
-        cx.allow_raise(RuntimeError, z3.Or(clash, z3.Or(cx.t(newp) == wntr_name("P"), cx.t(newp) == wntr_name("Q"))))
+        taken = z3.Or(clash, z3.Or(cx.t(newp) == wntr_name("P"), cx.t(newp) == wntr_name("Q")))
+        cx.allow_raise(RuntimeError, taken)
+        cx.taken = taken
         cx.names = names
         cx.target(ML._split_or_break_pipe, wn, "P", newp, names, at_end, f, flag, return_copy)
 
@@ -152,7 +172,9 @@ def _case(flag, at_end, skind, ekind, cv, return_copy):
                          (target is None or (not target.new_junctions and not target.new_pipes)))]
             F, LEN = cx.t(f), cx.t(L)
             pipe = target.pipe
-            posts = [("result_is_the_model_worked_on", out.value is target)]
+            posts = [("result_is_the_model_worked_on", out.value is target),
+                     # a new name that any existing node / link already carries (whatever its kind) is refused, not silently put in its place
+                     ("a_name_already_in_use_is_refused", z3.Not(cx.taken))]
             if return_copy:
                 touched_orig = [x for x in cx.path.writes if x[0] in (orig.pipe, orig.a, orig.b, orig.other)] or orig.new_junctions or orig.new_pipes or orig.reg.added or orig.reg.removed or orig.other_calls
                 posts.append(("input_model_untouched_when_return_copy", not touched_orig))
